@@ -23,11 +23,13 @@ Theorem reg_line_matches_source (reg : registry) (name : bstr) (pos : N) :
   | None => Crash e_slice
   end.
 Proof.
-  intros Hlen. unfold reg_line, src_template_Registry_LineNumber, go_lookup_s, go_has_s. cbv zeta.
+  intros Hlen. unfold reg_line, src_template_Registry_LineNumber. autounfold with src_helpers.
+  (* (a helper that looks the source up and cuts it, if the method has one, is opened by the line above) *)
+  unfold go_lookup_s, go_has_s. cbv zeta.
   destruct (assoc_s name (r_sources reg)) as [src|] eqn:E; [|reflexivity].
   specialize (Hlen src eq_refl). cbn [negb]. unfold line_number.
   destruct (N.leb_spec pos (N.of_nat (length src))) as [Hp|Hp].
-  - rewrite (go_slice_prefix src pos Hp). cbn [go_bind]. rewrite go_count_byte_nl.
+  - rewrite (go_slice_prefix src pos Hp). cbn [go_bind negb]. rewrite go_count_byte_nl.
     pose proof (count_nl_le (take (N.to_nat pos) src)) as H1.
     pose proof (st_take_length_le (N.to_nat pos) src) as H2.
     rewrite go_wrap_s_id; [f_equal; lia|lia|].
@@ -54,9 +56,10 @@ Theorem reg_col_panics_like_line_matches_source (reg : registry) (name : bstr) (
   | _, _ => False
   end.
 Proof.
-  unfold src_template_Registry_ColNumber, src_template_Registry_LineNumber. cbv zeta.
-  destruct (negb (go_has_s name (r_sources reg))); [exact I|].
-  destruct (go_slice _ 0%Z (Z.of_N pos)); exact I.
+  unfold src_template_Registry_ColNumber, src_template_Registry_LineNumber. autounfold with src_helpers.
+  unfold go_lookup_s, go_has_s. cbv zeta.
+  destruct (assoc_s name (r_sources reg)); cbn [negb go_bind]; [|exact I].
+  destruct (go_slice _ 0%Z (Z.of_N pos)); cbn [negb go_bind]; exact I.
 Qed.
 
 (* Model/Interp.v's [render] computes rr_line through line_number on the recorded source of the failing template: the
